@@ -93,6 +93,9 @@ pub struct Cfg {
     /// stream every `tick_ms` (0 = no hold phase)
     pub hold_ms: u64,
     pub tick_ms: u64,
+    /// also trace datagrams the ENDPOINT could not route to a connection
+    /// (`ev <t> <ep> - transport:endpoint_datagram_dropped …`; off by default)
+    pub endpoint_drops: bool,
     /// watchdog: scenario is abandoned at this virtual time
     pub deadline_ms: u64,
     /// adversarial-peer attack name (client rewrites its own cleartext payloads) and trigger
@@ -140,6 +143,7 @@ impl Default for Cfg {
             rotate_handshake_cid: -1,
             hold_ms: 0,
             tick_ms: 1000,
+            endpoint_drops: false,
             deadline_ms: 600_000,
             attack: String::new(),
             attack_at: 0,
@@ -239,6 +243,7 @@ impl Cfg {
                 "rotate_handshake_cid" => c.rotate_handshake_cid = n()? as i64,
                 "hold_ms" => c.hold_ms = n()?,
                 "tick_ms" => c.tick_ms = n()?.max(1),
+                "endpoint_drops" => c.endpoint_drops = n()? != 0,
                 "deadline_ms" => c.deadline_ms = n()?,
                 "attack" => c.attack = v.to_string(),
                 "attack_at" => c.attack_at = n()?,
